@@ -1,6 +1,6 @@
 (* C08 proofs, part 5: BorrowAlternate, the interest / reward messages, one message, histories. *)
 From Comdex Require Import Lib.Base Lib.DecArith Model.Lend Proofs.LendProofs Proofs.LendProofsInv Proofs.LendProofsSide
-     Proofs.LendProofsSteps Proofs.LendProofsSteps2 Proofs.LendProofsLiq.
+     Proofs.LendProofsSteps Proofs.LendProofsSteps2 Proofs.LendProofsLiq Proofs.LendProofsClose.
 From Coq Require Import ZifyBool.
 
 Section Hist.
@@ -70,10 +70,10 @@ Section Hist.
 
   (* one message outside known-finding class 2: the invariants are kept; only the oracle op moves a price *)
   Lemma step_good st o st' :
-    Good cfg st -> kf_C08_2 st o = false -> step cfg st o = Ok st' ->
+    Good cfg st -> kf_books st o = false -> step cfg st o = Ok st' ->
     Good cfg st' /\ (is_setprice o = false -> prices st' = prices st).
   Proof.
-    intros HG Hkf H. destruct o; cbn [step] in H;
+    intros HG Hkf H. apply orb_false_elim in Hkf as (Hkf & Hkf4). destruct o; cbn [step] in H;
       try (match type of H with (if ?c then _ else _) = _ => destruct c eqn:Ec; [discriminate|] end).
     - destruct (lend_good _ _ _ _ _ _ _ _ _ _ HG H). tauto.
     - destruct (withdraw_good _ _ _ _ _ _ _ _ HG H). tauto.
@@ -88,9 +88,21 @@ Section Hist.
     - destruct (calc_all_good _ _ _ _ _ HG H). tauto.
     - injection H as <-. split; [exact HG|discriminate].
     - destruct (hand_over_good _ _ _ _ _ _ HG Hkf H). tauto.
+    - destruct (auc_bid_good _ _ _ _ _ HG H). tauto.
+    - destruct (auc_close_good _ _ _ _ _ _ _ HG H). tauto.
+    - destruct (repay_withdraw_good _ _ _ _ _ _ _ HG H). tauto.
+    - destruct (fund_mod_good _ _ _ _ _ _ _ _ HG H). tauto.
+    - destruct (fund_reserve_good _ _ _ _ _ _ _ HG H). tauto.
+    - destr_all H. injection H as <-. split; [exact HG|reflexivity].
+    - destr_all H. injection H as <-. split; [exact HG|reflexivity].
+    - (* a generation-1 hand-over outside class 4 writes nothing *)
+      unfold hand_over_v1 in H. unfold kf_C08_4 in Hkf4.
+      destruct (zget (borrows st) bid) as [b0|]; [|discriminate]. destruct (b_liq b0); [discriminate|].
+      cbn [negb] in Hkf4. rewrite andb_true_r in Hkf4. rewrite Hkf4 in H. cbn [negb] in H.
+      destr_all H. injection H as <-. split; [exact HG|reflexivity].
   Qed.
 
-  Lemma apply_op_good st o : Good cfg st -> kf_C08_2 st o = false -> Good cfg (apply_op cfg st o).
+  Lemma apply_op_good st o : Good cfg st -> kf_books st o = false -> Good cfg (apply_op cfg st o).
   Proof.
     intros HG Hkf. unfold apply_op. destruct (step cfg st o) as [st'|c|] eqn:E; try exact HG.
     exact (proj1 (step_good _ _ _ HG Hkf E)).
@@ -105,11 +117,11 @@ Section Hist.
   Lemma cleanb_ok ops : forall st, cleanb cfg st ops = true -> clean cfg st ops.
   Proof.
     induction ops as [|o r IH]; intros st H; [exact I|]. cbn [cleanb] in H. apply andb_prop in H as (H1 & H2).
-    split; [destruct (kf_C08_2 st o); [discriminate|reflexivity]|apply IH; exact H2].
+    split; [destruct (kf_books st o); [discriminate|reflexivity]|apply IH; exact H2].
   Qed.
 
   (* histories of the eleven lend messages and oracle moves are clean *)
-  Definition is_handover (o : op) : bool := match o with OHandOver _ _ _ => true | _ => false end.
+  Definition is_handover (o : op) : bool := match o with OHandOver _ _ _ | OHandOverV1 _ _ _ _ _ _ => true | _ => false end.
   Lemma clean_no_handover ops : forall st, forallb (fun o => negb (is_handover o)) ops = true -> clean cfg st ops.
   Proof.
     induction ops as [|o r IH]; intros st H; [exact I|]. cbn [forallb] in H. apply andb_prop in H as (H1 & H2).
